@@ -41,6 +41,7 @@ LEVEL = {
                    "of await/del/fail sequences.",
     "technique": "static analysis: double-checked-locking and atomic-publish shape rules on the CFG",
 }
+LEVEL["decided"] += " (R12.8) the descriptor decides 'looked up on the class' by `instance is None` only."
 
 PLACEHOLDER = "functools._FutureCachedPropertyValue"
 
